@@ -464,7 +464,8 @@ func (x *Xlat) zero(t types.Type) Term {
 		case u.Info()&types.IsBoolean != 0:
 			return "false"
 		case u.Info()&types.IsString != 0:
-			return "strempty"
+			// written out (not the strempty macro): cvc5 wants a value inside constant arrays
+			return "(mkstr ((as const (Array Int Int)) 0) 0)"
 		case u.Kind() == types.Float64 || u.Kind() == types.UntypedFloat:
 			return "(_ +zero 11 53)"
 		case u.Kind() == types.Float32:
@@ -472,7 +473,7 @@ func (x *Xlat) zero(t types.Type) Term {
 		}
 		return "0"
 	case *types.Slice:
-		return "slicenil"
+		return "(mkslice 0 0 0 0)"
 	case *types.Array:
 		return sx(sx("as const", x.sortOf(t)), x.zero(u.Elem()))
 	case *types.Struct:
